@@ -93,3 +93,11 @@ Proof.
      split; [intros; try reflexivity; try congruence|]; split; [intros; try reflexivity; try congruence|];
      exact R3).
 Qed.
+
+(* the hypotheses are met by the state in which a reader and a writer wait on descriptor 5 (m = READ|WRITE, d = READ) *)
+Example rearm_hypotheses_hold :
+  let s := run_engine [SWait 1 5 EV_READ (-1); SWait 2 5 EV_WRITE (-1)] in
+  0 <= 5 < s_size s /\ Z.land EV_READ 3 = EV_READ /\ 3 <> EV_READ /\
+  i_int (tab_get 5 (s_tab s)) = ONE_SHOT + 3 /\
+  kfind 5 (kn_list (s_k s)) = Some (mkkent 5 (Z.lor (translate 3) EPOLLONESHOT) true).
+Proof. vm_compute. repeat split; congruence. Qed.
